@@ -92,3 +92,23 @@ M("selectle-uses-lt", "transform/selects.py", "lambda v: operator.le(Comparable(
 M("rangeopenright-closed-right", "transform/selects.py", "lambda v: minv < Comparable(v) <= maxv", "lambda v: minv < Comparable(v) < maxv", ["C04", "C13"])
 M("itemgetter-missing-not-none", CMP, "    if len(args) == 1:\n        return partial(_get_default, item=args[0], default=None)",
   "    if len(args) == 1:\n        return partial(_get_default, item=args[0], default='')", ["C04", "C05"])
+
+J = "transform/joins.py"
+# ---- C06 ----------------------------------------------------------------------------------
+M("join-no-left-hanging-flush", J, "        if lpending:\n            # yield anything that got left hanging\n            for row in joinrows(lrowgrp, None):\n                yield tuple(row)\n        # yield the rest\n        for lkval, lrowgrp in lgit:",
+  "        # yield the rest\n        for lkval, lrowgrp in lgit:", ["C06"])
+M("join-gt-becomes-ge", J, "            elif lkval > rkval:\n                if rightouter:", "            elif lkval >= rkval:\n                if rightouter:", ["C06"])
+# (advancing only the left side after a match is equivalent here: the right group iterator has
+#  been consumed by joinrows, so re-visiting it yields nothing)
+M("join-match-skips-next-right-group", J, "                rkval, rrowgrp = next(rgit)\n                rpending = True\n\n    except StopIteration:",
+  "                rkval, rrowgrp = next(rgit)\n                if lkval > rkval:\n                    rkval, rrowgrp = next(rgit)\n                rpending = True\n\n    except StopIteration:", ["C06"])
+M("join-rows-zip", J, "            _rrowgrp = list(_rrowgrp)  # may need to iterate more than once\n            for lrow in _lrowgrp:\n                for rrow in _rrowgrp:",
+  "            _rrowgrp = list(_rrowgrp)  # may need to iterate more than once\n            for lrow, rrow in zip(_lrowgrp, _rrowgrp):\n                if True:", ["C06"], nth=0)
+M("join-right-only-no-key-copy", J, "                for li, ri in zip(lkind, rkind):\n                    outrow[li] = rrow[ri]", "                pass", ["C06"], nth=0)
+M("join-rvind-includes-key", J, "    rvind = [i for i in range(len(rhdr)) if i not in rkind]", "    rvind = [i for i in range(len(rhdr)) if i not in rkind[:1]]", ["C06"], nth=0)
+M("lookupjoin-last-partner", J, "    rgit = itertools.groupby(rit, key=rgetk)\n    lrowgrp = []\n\n    # loop until", "    rgit = ((k, reversed(list(g))) for k, g in itertools.groupby(rit, key=rgetk))\n    lrowgrp = []\n\n    # loop until", ["C06"], nth=1)
+M("antijoin-skips-none-group", J, "            if lkval < rkval:\n                for row in lrowgrp:\n                    yield tuple(row)",
+  "            if lkval < rkval:\n                for row in lrowgrp:\n                    if lkval.obj is not None:\n                        yield tuple(row)", ["C06"])
+M("join-squareup-dropped", J, "        self.left = stack(left, missing=missing)\n        self.right = stack(right, missing=missing)\n        if not presorted:\n            self.left = sort(self.left, lkey, buffersize=buffersize,\n                             tempdir=tempdir, cache=cache)\n            self.right = sort(self.right, rkey, buffersize=buffersize,\n                              tempdir=tempdir, cache=cache)\n        self.leftouter",
+  "        self.left = left\n        self.right = stack(right, missing=missing)\n        if not presorted:\n            self.left = sort(self.left, lkey, buffersize=buffersize,\n                             tempdir=tempdir, cache=cache)\n            self.right = sort(self.right, rkey, buffersize=buffersize,\n                              tempdir=tempdir, cache=cache)\n        self.leftouter", ["C06"])
+M("crossjoin-prefix-zero-based", J, "text_type(i+1) + '_' + text_type(f)", "text_type(i) + '_' + text_type(f)", ["C06"])
